@@ -30,7 +30,7 @@ func (f *fprinter) indent(level int, ss ...string) {
 
 func decision(n Node) string {
 	switch n.K {
-	case "text", "expr", "void", "el":
+	case "text", "expr", "void", "el", "gocodei":
 		return n.Tr
 	case "slot", "hcomment", "mcomment", "raw", "call", "callb":
 		return n.After
@@ -201,7 +201,7 @@ func (f *fprinter) node(n Node, level int) {
 		f.indent(level, "}")
 	case "slot":
 		f.indent(level, "{ children... }")
-	case "gocode":
+	case "gocode", "gocodei":
 		f.indent(level, "{{ env.G() }}")
 	case "gocodeml":
 		f.indent(level, "{{\n")
